@@ -28,6 +28,8 @@ AXI_CM = {k: k for k in AXI_INVS + ["ForcedResponseId"]}
 AXI_CM["Recovers"] = "BoundedService"
 AXI = GFamily("axilto/AxiTimeoutGraph", "axilto/AxiTimeoutTrace", "harness.families.axito:make", fmt="hash",
               hint=axito.Hint(), clause_map=AXI_CM, describe=axito.describe)
+WB_NOTES = os.path.join(os.path.dirname(os.path.dirname(os.path.dirname(os.path.abspath(__file__)))), "notes",
+                        "C11wb_findings.json")
 AXI_NOTES = os.path.join(os.path.dirname(os.path.dirname(os.path.dirname(os.path.abspath(__file__)))), "notes",
                          "C11b_findings.json")
 
@@ -122,19 +124,27 @@ def run(prop, report, tier, seed):
 
 
 def _run_rest(prop, report, tier, seed):
+    from .axilicfam import notes_findings
     if os.environ.get("VERIF_ONLY_AXI4"):      # development aid (mutation tests of axi_full.py); the evidence says so
         report.note("restricted to the AXI4 batches by VERIF_ONLY_AXI4")
         return
     cfgs = wb.configs(tier, "C11")
+    report.findings = list(report.findings) + notes_findings(report.prop, WB_NOTES)
+    wbicfam.run_canary(report, dict(kind="shared", n=2, m=1, map="contig", timeout=2, faulty=1, rw=0, errs=0, slack=2,
+                                    canary="stuck_grant"), "Recovers")
     report.assume("slaves may stay silent forever or answer at any time incl. the cycle the timer expires; "
                   "time-outs T=1..4 (the default 10^6 is the same netlist with a wider counter)")
     report.assume("AXI4 (axi_full.py): one master, one slave region and an unmapped region, at most one burst of 1-2 beats "
                   "outstanding, ids from a 2-value set; main configurations: write data offered with its address and "
                   "without gaps, a slave that let the time-out expire stays silent for that request, takes a write "
                   "burst's address and first beat together, and answers what it has accepted within the time-out")
+    l2s = wbicfam.l2_state()
     stats = run_batches(wbicfam.FAMILY, report, [cfgs[i:i + 5] for i in range(0, len(cfgs), 5)], WB_INVS, WB_PROPS,
-                        spec_budget=300000)
+                        spec_budget=300000, on_accept=wbicfam.l2_on_accept(l2s))
     report.add(duts_explored=len(stats), clauses=WB_INVS + WB_PROPS, per_dut=stats)
+    # L2 lane of the Wishbone part (specs/wbic/WbIcModel.tla: Timeout/WaitTimer on the shared bus): conformance of the
+    # graphs above and of random runs with time-outs up to 8, M-mode with faulty slaves beyond the G-mode sizes
+    wbicfam.run_l2(prop, report, tier, seed, l2s, WB_INVS, WB_PROPS, gprop="C11")
     # AXI-Lite: shared interconnect with AXILiteTimeout and a faulty slave / unmapped address
     acfgs = axilto.configs(tier)
     # the demonstrations of listed findings run one by one (a batch is re-run without a DUT that hit a finding)
